@@ -66,6 +66,13 @@ def cases(tier, seed):
             for k in (1, None):
                 out.append({"input": {"kind": "inv", "name": name, "text": text, "deg": deg, "k": k}})
             out.append({"input": {"kind": "loop", "name": name, "text": text, "deg": deg}})
+    # the same loop analysed twice in one process with different initial values of its effective variable: the second result
+    # must not depend on the first (the two analyses are one case = one process history of length 2)
+    tpl = "z = %s\nwhile true:\n    x = 2*x + y**2 + z\n    y = 2*y - y**2 + 2*z\n    z = 3*z\nend\n"
+    for za, zb in (("1", "5"), ("5", "1"), ("0", "2")):
+        for k in (1, None):
+            out.append({"input": {"kind": "inv", "name": "pair", "before": tpl % za, "text": tpl % zb, "deg": 1, "k": k}})
+        out.append({"input": {"kind": "loop", "name": "pair", "before": tpl % za, "text": tpl % zb, "deg": 1}})
     return out
 
 
@@ -103,6 +110,22 @@ def run_case(case):
     from unsolvable_analysis import UnsolvInvSynthesizer, SolvLoopSynthesizer
     from symengine.lib.symengine_wrapper import sympify as se
 
+    if inp.get("before"):
+        try:
+            with cpu_limit(120):
+                pb = polar.normalize(polar.parse(inp["before"]))
+                cb = [se(v) for v in sorted(str(v) for v in pb.defective_variables if v in pb.original_variables)]
+                if inp["kind"] == "inv":
+                    UnsolvInvSynthesizer.synth_inv(cb, inp["deg"], pb, inp["k"])
+                else:
+                    SolvLoopSynthesizer.synth_loop(cb, inp["deg"], pb)
+        except CpuTimeout:
+            stats["refusals"]["timeout@before"] = 1
+            res["status"] = "refusal"
+            return res
+        except Exception as e:
+            stats["refusals"]["before:" + exc_name(e)] = 1
+        polar.reset_settings()
     cand = sorted((str(v) for v in program.defective_variables if v in program.original_variables))
     if not cand:
         res["status"] = "na"
